@@ -5,6 +5,7 @@ pub mod diag;
 pub mod exec;
 pub mod gen;
 pub mod json;
+pub mod labels;
 pub mod model;
 pub mod mon;
 pub mod prng;
